@@ -39,7 +39,7 @@ def cases(tier, seed):
     rng = np.random.default_rng([seed, 1919])
     n = 140 if tier == "quick" else 12000
     for i in range(n):
-        yield {"mesh": gen.random_mesh(rng, 40 if tier == "quick" else 120), "part": ["inputs", "copy", "export"][i % 3], "seed": int(rng.integers(0, 10**6))}
+        yield {"mesh": gen.random_mesh(rng, 40 if tier == "quick" else 120, families=gen.DEFAULT_FAMILIES + ["sample"]), "part": ["inputs", "copy", "export"][i % 3], "seed": int(rng.integers(0, 10**6))}
 
 
 # ------------------------------------------------------------------ digests
